@@ -100,7 +100,7 @@ def check_value(sh, value, desc, cfgs):
 def sources(sh, quick):
     """yields (kind, desc, value)"""
     seed = sh.seed
-    n = 1500 if quick else 30000
+    n = 1500 if quick else 12000
     for i in range(n):
         yield 'builtin', lambda i=i: ({'gen': 'builtin', 'i': i, 'seed': seed}, V.build(V.rand_tree(V.rng_for('c03b', seed, i))))
     for i in range(n):
@@ -144,7 +144,7 @@ def run_shard(sh):
             continue
         desc, value = thunk()
         rng = V.rng_for('c03cfg', sh.seed, idx)
-        cfgs = config_set(rng, value, 8 if quick else 40)
+        cfgs = config_set(rng, value, 8 if quick else 30)
         n = check_value(sh, value, desc, cfgs)
         sh.case((kind, repr(desc)), nontrivial=bool(n and n > 1))
         sh.counters['values from generator ' + kind] += 1
